@@ -16,6 +16,8 @@ import (
 	"verif/engine/sx"
 )
 
+var replayProp string
+
 var (
 	replayOnce sync.Once
 	replayBin  string
@@ -168,6 +170,15 @@ func replayNative(harness, target string, inputs map[string]interface{}, f *sx.F
 	for _, x := range r.Failed {
 		if x == target {
 			return true, ""
+		}
+	}
+	// the concrete run may trip over a sibling assertion of the same property first (e.g. an earlier check of
+	// the same fact): that still is a reproduced violation of the property
+	if replayProp != "" {
+		for _, x := range r.Failed {
+			if assertionBelongsTo(x, replayProp) {
+				return true, "reproduced as " + x
+			}
 		}
 	}
 	return false, fmt.Sprintf("assertion held natively (failed %v, reached %v, panic %q, notes %v)", r.Failed, r.Reached, firstLine(r.Panic), r.Notes)
